@@ -118,12 +118,35 @@ def eval_expr(expr: ast.AST, env: Dict[str, object]):
         raise Undecided(f"{norm(expr)} is not defined on the sample point ({exc})")
 
 
+_NOVALUE = object()  # returned by an env["__resolve__"] hook that does not know the expression
+
+
 def _eval_expr(expr: ast.AST, env: Dict[str, object]):
     key = norm(expr)
     if key in env:
         return env[key]
+    hook = env.get("__resolve__")
+    if hook is not None:
+        v = hook(expr, env)
+        if v is not _NOVALUE:
+            return v
     if isinstance(expr, ast.Constant):
         return expr.value
+    if isinstance(expr, (ast.GeneratorExp, ast.ListComp, ast.SetComp)) and len(expr.generators) == 1 and not expr.generators[0].is_async:
+        g = expr.generators[0]
+        out = []
+        for item in eval_expr(g.iter, env):
+            e2 = dict(env)
+            if isinstance(g.target, ast.Name):
+                e2[g.target.id] = item
+            elif isinstance(g.target, ast.Tuple) and all(isinstance(x, ast.Name) for x in g.target.elts):
+                for x, v_ in zip(g.target.elts, item):
+                    e2[x.id] = v_
+            else:
+                raise Undecided(norm(expr))
+            if all(eval_expr(c, e2) for c in g.ifs):
+                out.append(eval_expr(expr.elt, e2))
+        return frozenset(out) if isinstance(expr, ast.SetComp) else tuple(out)
     if isinstance(expr, (ast.Tuple, ast.List)):
         return tuple(eval_expr(e, env) for e in expr.elts)
     if isinstance(expr, ast.UnaryOp):
@@ -186,10 +209,10 @@ def _eval_expr(expr: ast.AST, env: Dict[str, object]):
         if fn in ("int", "float", "bool", "round", "str") and len(expr.args) == 1:
             return {"int": int, "float": float, "bool": bool, "round": round, "str": str}[fn](
                 eval_expr(expr.args[0], env))
-        if fn in ("list", "tuple", "set", "frozenset", "sorted", "len", "min", "max", "sum") and len(expr.args) == 1 and not expr.keywords:
+        if fn in ("list", "tuple", "set", "frozenset", "sorted", "len", "min", "max", "sum", "all", "any") and len(expr.args) == 1 and not expr.keywords:
             v = eval_expr(expr.args[0], env)
             return {"list": tuple, "tuple": tuple, "set": frozenset, "frozenset": frozenset, "sorted": lambda x: tuple(sorted(x)),
-                    "len": len, "min": min, "max": max, "sum": sum}[fn](v)
+                    "len": len, "min": min, "max": max, "sum": sum, "all": all, "any": any}[fn](v)
         if fn == "isinstance" and len(expr.args) == 2:
             v = eval_expr(expr.args[0], env)
             t = expr.args[1]
